@@ -752,7 +752,8 @@ SPLIT_MAX_REFUSED = 2
 def split_chunks(p):
     A, B = p['A'], p['B']
     return [
-        'CREATE TABLE %s (Id UNIQUE_ID, %s STRING);\nCREATE UNIQUE INDEX I1 ON %s (Id);\n' % (A, p['Name'], A),
+        # (round 12, C18-24) the text that declares the first class does not begin with the declaration
+        'CREATE UNIQUE INDEX I1 ON %s (Id);\nCREATE TABLE %s (Id UNIQUE_ID, %s STRING);\n' % (A, A, p['Name']),
         'CREATE TABLE %s (Id UNIQUE_ID, A_Id UNIQUE_ID, %s INTEGER);\n' % (B, p['N']),
         'CREATE ROP REF_ID R1 FROM MC %s (A_Id) TO 1C %s (Id);\n' % (B, A),
         'INSERT INTO %s VALUES (%s, %s);\n' % (A, uid(0x101), q(p['s'][0])) +
